@@ -79,6 +79,12 @@ def build(spec):
     o = None
     if spec["form"] in ("out-other", "out-bare"):
         o = out_buffer(spec, a, b, uf)
+    elif spec["form"] in ("out-tuple-bare", "out-tuple-unyt"):
+        # one buffer per output of a multiple-output ufunc
+        with np.errstate(all="ignore"):
+            protos = uf(*([np.asarray(a.obj)] + ([np.asarray(b.obj)] if b is not None else [])))
+        o = [L.hold(np.full(np.shape(p), 9).astype(np.asarray(p).dtype), None if spec["form"] == "out-tuple-bare" else "A",
+                    quantity_ok=False, name="nmo") for p in protos]
     return uf, a, b, o
 
 
@@ -100,11 +106,13 @@ def invoke(spec, uf, a, b, o):
         return uf(*args, out=a.obj, **kw)
     if form in ("out-other", "out-bare"):
         return uf(*args, out=o.obj, **kw)
+    if form in ("out-tuple-bare", "out-tuple-unyt"):
+        return uf(*args, out=tuple(h.obj for h in o), **kw)
     raise ValueError(form)
 
 
 def target_of(spec):
-    return {"iop": "a", "out-self": "a", "out-other": "o", "out-bare": "o"}.get(spec["form"])
+    return {"iop": "a", "out-self": "a", "out-other": "o", "out-bare": "o", "out-tuple-bare": "o", "out-tuple-unyt": "o"}.get(spec["form"])
 
 
 def run_case(spec):
@@ -112,6 +120,11 @@ def run_case(spec):
 
     uf, a, b, o = build(spec)
     ops = {"a": a, "b": b, "o": o}
+    if isinstance(o, list):
+        # multiple outputs: the first is the target `o`, the others `o1`, `o2`, …
+        ops = {"a": a, "b": b, "o": o[0]}
+        for k, h in enumerate(o[1:], 1):
+            ops[f"o{k}"] = h
     s0 = {k: L.snap(h.obj, h) for k, h in ops.items() if h is not None}
     units0 = {k: (h.obj.units, L.snap(h.obj.units)) for k, h in ops.items() if h is not None and isinstance(h.obj, unyt.unyt_array)}
     res, exc = L.call_quiet(lambda: invoke(spec, uf, a, b, o))
@@ -120,7 +133,7 @@ def run_case(spec):
            "delta": {k: L.delta(s0[k], s1[k]) for k in s0}, "before": s0, "after": s1,
            "unit_objects": {k: L.delta(u0, L.snap(u)) for k, (u, u0) in units0.items()}}
     tgt = target_of(spec)
-    if tgt is not None and exc is None:
+    if tgt is not None and exc is None and not isinstance(o, list):
         # the copying counterpart: the same call without out= on fresh, identical operands
         cs = dict(spec, form="op" if (spec["form"] == "iop" and spec["ufunc"] in OPS) else "call")
         cs["a"] = dict(spec["a"], ro=False)
@@ -160,9 +173,11 @@ def judge(spec, obs, rule="?"):
     out = []
     tgt = target_of(spec)
     fault = fault_kind(spec)
+    if fault in ("plain-inputs", "tuple-out"):
+        rule = "any-rule"       # one defect of the wrap-up / labelling code, whatever the ufunc
     desc = f"np.{spec['ufunc']} [{spec['form']}] a={spec['a']} b={spec.get('b')}"
     for k, d in obs["delta"].items():
-        if k == tgt:
+        if k == tgt or (tgt == "o" and k.startswith("o")):
             continue
         if d:
             out.append((f"ufunc|{rule}|{spec['form']}|{fault}|input-{k}|{'+'.join(d)}", f"{desc}: input {k} changed: {d} (raised: {obs['exc']})"))
@@ -178,6 +193,9 @@ def judge(spec, obs, rule="?"):
         out.append((f"ufunc|{rule}|{spec['form']}|{fault}|{dc}|guard", f"{desc}: bytes outside the out buffer were written"))
     if obs["exc"] is not None:
         bad = [x for x in d if x in ("numbers", "unit", "dtype", "shape", "registry", "name")]
+        for k2, d2 in obs["delta"].items():          # the other outputs of a multiple-output call
+            if k2 != tgt and tgt == "o" and k2.startswith("o"):
+                bad += [x for x in d2 if x in ("numbers", "unit") and x not in bad]
         if "dtype" in bad:
             # array.py:1818-1822: the integer out= buffer is made float before anything is checked
             out.append(("ufunc|out=|int-retyped-on-failure",
